@@ -6,7 +6,7 @@ import time
 import z3
 
 from pv import classes, smt, source
-from pv.contract import REG, FIELDS, THEORIES, SPECFNS, CLASS_INV, GHOST_ARRAYS, Contract
+from pv.contract import REG, FIELDS, THEORIES, SPECFNS, CLASS_INV, GHOST_ARRAYS, Contract, OWN_MAPS
 from pv.core import Ob, DISCHARGED, REFUTED, UNDECIDED
 from pv.engine import Engine, MAX_PATHS
 from pv.evalx import from_py, lit_of
@@ -703,7 +703,7 @@ class Verifier(Engine):
         else:
             stores = [(fld, FIELDS.get(fld))] if fld in FIELDS else []
             stores += [('%s.%s' % (k[0], fld), v) for k, v in FIELDS.items()
-                       if isinstance(k, tuple) and k[1] == fld and v != FIELDS.get(fld)]
+                       if isinstance(k, tuple) and k[1] == fld and (v != FIELDS.get(fld) or k in OWN_MAPS)]
             if not stores:
                 stores = [(fld, None)]
             for nm, kind in stores:
